@@ -2,18 +2,41 @@
 (* C14 state machine: connect / disconnect / disconnect-by-key / emit over several        *)
 (* senders and names, handlers with scripted behaviours that edit the handler list        *)
 (* while an emit is in progress, weak arguments collected at any moment.                  *)
-(* Mode = "snapshot": emit walks a copy of the handler list (the code after the fix:      *)
-(* commit); Mode = "live": emit walks the live list by index (the code before it).        *)
+(*                                                                                        *)
+(* Connections are made with a DESCRIPTOR <<h, ws, us>>: callback, 0..MaxWA weak          *)
+(* arguments, user arguments.  The user arguments are handed over as a tuple literal      *)
+(* ("t"), a fresh list ("f") or THE CALLER'S OWN LIST ("c"), which the caller goes on     *)
+(* changing afterwards (Mutate) and re-uses for further connects and disconnects.         *)
+(* The caller keeps the keys returned by connect (held) and may let go of a sender        *)
+(* (DropSender) while still holding them; a fresh sender then takes the slot, so the      *)
+(* stale keys name nothing any more.                                                      *)
+(*                                                                                        *)
+(* Mode = "snapshot": the contract-conforming machinery (emit walks a copy of the list,   *)
+(*   arguments are copied at connect time, disconnect compares whole descriptors, keys    *)
+(*   reference nothing).  The other modes are deliberately wrong machineries that the     *)
+(*   contract must refute (non-vacuity):                                                  *)
+(*   "live"    emit walks the live list by index (the code before commit 5430f18);        *)
+(*   "alias"   a list given as user arguments is stored as the caller's object;           *)
+(*   "prefix"  disconnect compares the weak arguments pairwise up to the shorter length;  *)
+(*   "keyref"  the key returned by connect references its sender;                         *)
+(*   "strongargs" the handler entry references its weak arguments strongly.               *)
 EXTENDS SignalsOps
 
 CONSTANTS NS, NN, NH, NW,   \* senders 1..NS, registered names 1..NN, handlers 1..NH, weak args 1..NW
+          MaxWA,            \* weak arguments per connection: 0..MaxWA
+          NU,               \* distinct user tags
+          UKinds,           \* subset of {"t", "f", "c"}: how user arguments are handed over
+          Mem,              \* BOOLEAN: the caller drops senders (keeping or forgetting their keys)
           Behaviours,       \* set of handler behaviours explored
           MaxOps,           \* top-level operations per behaviour
           MaxConn,          \* handler-list length bound
           Mode
 
-VARIABLES conn, alive, nextk, stack, beh, nops, last
-vars == <<conn, alive, nextk, stack, beh, nops, last>>
+VARIABLES conn, alive, nextk, stack, beh, nops, last,
+          clist,            \* current content of the caller's own list
+          held,             \* keys the caller still holds
+          mine              \* mine[s] = keys handed out for the sender currently in slot s
+vars == <<conn, alive, nextk, stack, beh, nops, last, clist, held, mine>>
 
 S == 1..NS
 N == 1..NN
@@ -21,69 +44,82 @@ H == 1..NH
 W == 1..NW
 Unregistered == NN + 1
 
+WSeqs(a) == {<<>>} \cup (IF MaxWA >= 1 THEN {<<x>> : x \in a} ELSE {})
+                   \cup (IF MaxWA >= 2 THEN {z \in a \X a : z[1] # z[2]} ELSE {})
+CL == {<<t>> : t \in 1..NU} \cup {<<t, 9>> : t \in 1..NU}          \* contents the caller's list goes through
+Lit == IF "c" \in UKinds THEN CL ELSE {<<t>> : t \in 1..NU}         \* literals
+UChoices == {z \in UKinds \X CL : IF z[1] = "c" THEN z[2] = clist ELSE z[2] \in Lit}
+
+MEntry(k, h, ws, uk, us) == [k |-> k, h |-> h, ws |-> ws, us |-> us, uk |-> uk]
+
 Init == /\ conn = [p \in S \X N |-> <<>>]
         /\ alive = W
         /\ nextk = 1
         /\ stack = <<>>
-        /\ beh \in [H -> Behaviours]
+        /\ beh = [h \in H |-> "unset"]      \* a handler's behaviour is fixed when it is first connected
         /\ nops = 0
         /\ last = [op |-> "init", a |-> <<>>, verdict |-> "-"]
+        /\ clist = <<1>>
+        /\ held = {}
+        /\ mine = [s \in S |-> {}]
 
 Idle == stack = <<>>
+BehOf(h) == IF beh[h] = "unset" THEN "plain" ELSE beh[h]
 
-DoConnect(s, n, h, w, stk) ==
-  /\ conn' = [conn EXCEPT ![<<s, n>>] = Append(@, Entry(nextk, h, w))]
+DoConnect(s, n, h, ws, uk, us, stk) ==
+  /\ conn' = [conn EXCEPT ![<<s, n>>] = Append(@, MEntry(nextk, h, ws, uk, us))]
   /\ nextk' = nextk + 1
   /\ stack' = NoteAdd(stk, nextk)
+  /\ held' = held \cup {nextk}
+  /\ mine' = [mine EXCEPT ![s] = @ \cup {nextk}]
 
-Connect(s, n, h, w) ==
+Connect(s, n, h, ws, uk, us) ==
   /\ Idle /\ nops < MaxOps /\ Len(conn[<<s, n>>]) < MaxConn
-  /\ (w = 0 \/ w \in alive)
-  /\ DoConnect(s, n, h, w, stack)
+  /\ DoConnect(s, n, h, ws, uk, us, stack)
+  /\ \E b \in (IF beh[h] = "unset" THEN Behaviours ELSE {beh[h]}) : beh' = [beh EXCEPT ![h] = b]
   /\ nops' = nops + 1
-  /\ last' = [op |-> "connect", a |-> <<s, n, h, w, nextk>>, verdict |-> "-"]
-  /\ UNCHANGED <<alive, beh>>
+  /\ last' = [op |-> "connect", a |-> <<s, n, h, ws, uk, us, nextk>>, verdict |-> "-"]
+  /\ UNCHANGED <<alive, clist>>
 
 ConnectUnregistered(s, h) ==   \* rejected with NameError: no change
   /\ Idle /\ nops < MaxOps
   /\ nops' = nops + 1
   /\ last' = [op |-> "connect_unregistered", a |-> <<s, Unregistered, h>>, verdict |-> "-"]
-  /\ UNCHANGED <<conn, alive, nextk, stack, beh>>
+  /\ UNCHANGED <<conn, alive, nextk, stack, beh, clist, held, mine>>
 
-Disconnect(s, n, h, w) ==      \* by arguments; not connected => nothing happens
+\* what the machinery has stored as user arguments of entry e, per Mode
+StoredUs(e) == IF Mode = "alias" /\ e.uk = "c" THEN clist ELSE e.us
+IsList(uk) == uk \in {"f", "c"}
+Matches(e, h, ws, uk, us) ==
+  CASE Mode = "prefix" -> e.h = h /\ e.us = us /\ (IsPrefix(e.ws, ws) \/ IsPrefix(ws, e.ws))
+    [] Mode = "alias"  -> e.h = h /\ e.ws = ws /\ StoredUs(e) = us /\ IsList(e.uk) = IsList(uk)
+    [] OTHER           -> e.h = h /\ e.ws = ws /\ e.us = us
+FoundBy(seq, h, ws, uk, us) ==
+  LET m == SelectSeq(seq, LAMBDA e : Matches(e, h, ws, uk, us)) IN IF m = <<>> THEN 0 ELSE m[1].k
+
+Disconnect(s, n, h, ws, uk, us) ==      \* by arguments; not connected => nothing happens
   /\ Idle /\ nops < MaxOps
-  /\ LET k == FirstMatch(conn[<<s, n>>], h, w) IN
+  /\ LET k == FoundBy(conn[<<s, n>>], h, ws, uk, us) IN
        /\ conn' = IF k = 0 THEN conn ELSE [conn EXCEPT ![<<s, n>>] = RemoveKey(@, k)]
-       /\ last' = [op |-> "disconnect", a |-> <<s, n, h, w, k>>, verdict |-> "-"]
+       /\ last' = [op |-> "disconnect", a |-> <<s, n, h, ws, uk, us, k>>,
+                   verdict |-> DisconnectVerdict(conn[<<s, n>>], k, h, ws, us)]
   /\ nops' = nops + 1
-  /\ UNCHANGED <<alive, nextk, stack, beh>>
+  /\ UNCHANGED <<alive, nextk, stack, beh, clist, held, mine>>
 
 DisconnectByKey(s, n, k) ==
-  /\ Idle /\ nops < MaxOps
+  /\ Idle /\ nops < MaxOps /\ k \in held
   /\ conn' = [conn EXCEPT ![<<s, n>>] = RemoveKey(@, k)]
   /\ nops' = nops + 1
   /\ last' = [op |-> "disconnect_by_key", a |-> <<s, n, k>>, verdict |-> "-"]
-  /\ UNCHANGED <<alive, nextk, stack, beh>>
+  /\ UNCHANGED <<alive, nextk, stack, beh, clist, held, mine>>
 
-\* weak argument w dies: every handler registered with it vanishes, everywhere
-KillIn(c, w) == [p \in S \X N |-> RemoveWeak(c[p], w)]
-KilledKeys(c, w) == UNION {{c[p][j].k : j \in {j \in 1..Len(c[p]) : c[p][j].w = w}} : p \in S \X N}
-
-Collect(w) ==
-  /\ w \in alive /\ nops < MaxOps
-  /\ alive' = alive \ {w}
-  /\ stack' = NoteDisc(stack, KilledKeys(conn, w))
-  /\ conn' = KillIn(conn, w)
+\* the caller changes its own list after having passed it to connect: no connection changes
+Mutate(c) ==
+  /\ Idle /\ nops < MaxOps /\ "c" \in UKinds /\ c # clist
+  /\ clist' = c
   /\ nops' = nops + 1
-  /\ last' = [op |-> "collect", a |-> <<w>>, verdict |-> "-"]
-  /\ UNCHANGED <<nextk, beh>>
-
-EmitBegin(s, n) ==
-  /\ Idle /\ nops < MaxOps
-  /\ stack' = <<NewFrame(s, n, conn[<<s, n>>])>>
-  /\ nops' = nops + 1
-  /\ last' = [op |-> "emit", a |-> <<s, n>>, verdict |-> "-"]
-  /\ UNCHANGED <<conn, alive, nextk, beh>>
+  /\ last' = [op |-> "mutate", a |-> <<c>>, verdict |-> "-"]
+  /\ UNCHANGED <<conn, alive, nextk, stack, beh, held, mine>>
 
 Top == stack[Len(stack)]
 SetTop(stk, f) == [stk EXCEPT ![Len(stk)] = f]
@@ -92,74 +128,134 @@ SetTop(stk, f) == [stk EXCEPT ![Len(stk)] = f]
 Source(f) == IF Mode = "live" THEN conn[<<f.s, f.n>>] ELSE f.snap
 HasNext(f) == f.i <= Len(Source(f))
 
+\* a handler that received weak argument w is running (its frame keeps the object alive: it cannot be collected now)
+HeldByRunning(stk, w) ==
+  \E j \in 1..Len(stk) : LET g == stk[j]
+                              src == Source(g)
+                          IN g.i > 1 /\ g.i - 1 <= Len(src) /\ HasWeak(src[g.i - 1], w)
+
+\* weak argument w dies: every handler registered with it vanishes, everywhere
+KillIn(c, w) == [p \in S \X N |-> RemoveWeak(c[p], w)]
+KilledKeys(c, w) == UNION {{c[p][j].k : j \in {j \in 1..Len(c[p]) : HasWeak(c[p][j], w)}} : p \in S \X N}
+ConnKeys(s) == UNION {Keys(conn[<<s, n>>]) : n \in N}
+
+\* strong references of the machinery around weak argument w (the senders themselves are held by the application)
+WeakHeapVerdict(w) ==
+  LET roots == {<<"C">>} \cup {<<"S", s>> : s \in S}
+      E == IF Mode = "strongargs" THEN {<<<<"S", s>>, <<"W", w>>>> : s \in {s \in S : \E n \in N : \E j \in 1..Len(conn[<<s, n>>]) : HasWeak(conn[<<s, n>>][j], w)}} ELSE {}
+  IN FreedVerdict(<<"W", w>>, {<<"W", w>>}, roots, E, "weak_arg")
+
+Collect(w) ==      \* at any moment, also between two handler calls of an emit in progress
+  /\ w \in alive /\ nops < MaxOps
+  /\ ~HeldByRunning(SubSeq(stack, 1, Len(stack) - 1), w)
+  /\ alive' = alive \ {w}
+  /\ stack' = NoteDisc(stack, KilledKeys(conn, w))
+  /\ conn' = KillIn(conn, w)
+  /\ nops' = nops + 1
+  /\ last' = [op |-> "collect", a |-> <<w>>, verdict |-> WeakHeapVerdict(w)]
+  /\ UNCHANGED <<nextk, beh, clist, held, mine>>
+
+\* the caller lets go of the sender in slot s (keeping or forgetting the keys it got for it)
+SenderHeapVerdict(s, heldAfter) ==
+  LET x == <<"S", s>>
+      objs == {x} \cup {<<"K", k>> : k \in mine[s]}
+      E == {<<<<"C">>, <<"K", k>>>> : k \in heldAfter \cap mine[s]}
+           \cup {<<x, <<"K", k>>>> : k \in ConnKeys(s)}
+           \cup (IF Mode = "keyref" THEN {<<<<"K", k>>, x>> : k \in mine[s]} ELSE {})
+  IN FreedVerdict(x, objs, {<<"C">>}, E, "sender")
+
+DropSender(s, keep) ==
+  /\ Mem /\ Idle /\ nops < MaxOps
+  /\ LET h1 == IF keep THEN held ELSE held \ mine[s] IN
+       /\ held' = h1
+       /\ last' = [op |-> "drop_sender", a |-> <<s, keep>>, verdict |-> SenderHeapVerdict(s, h1)]
+  /\ conn' = [p \in S \X N |-> IF p[1] = s THEN <<>> ELSE conn[p]]
+  /\ mine' = [mine EXCEPT ![s] = {}]
+  /\ nops' = nops + 1
+  /\ UNCHANGED <<alive, nextk, stack, beh, clist>>
+
+EmitBegin(s, n) ==
+  /\ Idle /\ nops < MaxOps
+  /\ stack' = <<NewFrame(s, n, conn[<<s, n>>])>>
+  /\ nops' = nops + 1
+  /\ last' = [op |-> "emit", a |-> <<s, n>>, verdict |-> "-"]
+  /\ UNCHANGED <<conn, alive, nextk, beh, clist, held, mine>>
+
 \* effect of calling the handler of entry e from frame f (f already advanced and recorded)
 Effect(e, f, stk) ==
-  LET b == beh[e.h]
+  LET b == BehOf(e.h)
       p == <<f.s, f.n>>
       live == conn[p]
       me == PosIn([j \in 1..Len(live) |-> live[j].k], e.k)
   IN CASE b = "discSelf" ->
             /\ conn' = [conn EXCEPT ![p] = RemoveKey(@, e.k)]
             /\ stack' = NoteDisc(stk, {e.k})
-            /\ UNCHANGED <<alive, nextk>>
+            /\ UNCHANGED <<alive, nextk, beh, held, mine>>
        [] b = "discEarlier" /\ me > 1 ->
             /\ conn' = [conn EXCEPT ![p] = RemoveKey(@, live[me - 1].k)]
             /\ stack' = NoteDisc(stk, {live[me - 1].k})
-            /\ UNCHANGED <<alive, nextk>>
+            /\ UNCHANGED <<alive, nextk, beh, held, mine>>
        [] b = "discLater" /\ me > 0 /\ me < Len(live) ->
             /\ conn' = [conn EXCEPT ![p] = RemoveKey(@, live[me + 1].k)]
             /\ stack' = NoteDisc(stk, {live[me + 1].k})
-            /\ UNCHANGED <<alive, nextk>>
+            /\ UNCHANGED <<alive, nextk, beh, held, mine>>
        [] b = "connectNew" /\ Len(live) < MaxConn ->
-            /\ DoConnect(f.s, f.n, NH, 0, stk)
+            /\ DoConnect(f.s, f.n, NH, <<>>, "t", <<1>>, stk)
+            /\ beh' = IF beh[NH] = "unset" THEN [beh EXCEPT ![NH] = "plain"] ELSE beh
             /\ UNCHANGED alive
        [] b = "emitAgain" /\ Len(stk) < 2 ->
             /\ stack' = Append(stk, NewFrame(f.s, (f.n % NN) + 1, conn[<<f.s, (f.n % NN) + 1>>]))
-            /\ UNCHANGED <<conn, alive, nextk>>
-       [] b = "killWeak" /\ 1 \in alive ->
+            /\ UNCHANGED <<conn, alive, nextk, beh, held, mine>>
+       [] b = "killWeak" /\ 1 \in alive /\ ~HeldByRunning(stk, 1) ->
             /\ alive' = alive \ {1}
             /\ stack' = NoteDisc(stk, KilledKeys(conn, 1))
             /\ conn' = KillIn(conn, 1)
-            /\ UNCHANGED nextk
-       [] OTHER -> stack' = stk /\ UNCHANGED <<conn, alive, nextk>>
+            /\ UNCHANGED <<nextk, beh, held, mine>>
+       [] OTHER -> stack' = stk /\ UNCHANGED <<conn, alive, nextk, beh, held, mine>>
 
 EmitStep ==
   /\ ~Idle /\ HasNext(Top)
   /\ LET f == Top
          e == Source(f)[f.i]
-         dead == e.w # 0 /\ e.w \notin alive
+         dead == ~WeakAlive(e, alive)
          f1 == IF dead THEN [f EXCEPT !.i = @ + 1]
-               ELSE [f EXCEPT !.i = @ + 1, !.called = Append(@, e.k), !.rets = Append(@, beh[e.h] = "true")]
+               ELSE [f EXCEPT !.i = @ + 1, !.called = Append(@, e.k), !.rets = Append(@, BehOf(e.h) = "true")]
      IN IF dead
         THEN /\ stack' = SetTop(stack, f1)
              /\ last' = [op |-> "skip_dead", a |-> <<e.k>>, verdict |-> "-"]
-             /\ UNCHANGED <<conn, alive, nextk>>
+             /\ UNCHANGED <<conn, alive, nextk, beh, held, mine>>
         ELSE /\ Effect(e, f1, SetTop(stack, f1))
-             /\ last' = [op |-> "call", a |-> <<e.k, e.h, e.w>>, verdict |-> "-"]
-  /\ UNCHANGED <<beh, nops>>
+             /\ last' = [op |-> "call", a |-> <<e.k, e.h, e.ws, StoredUs(e)>>, verdict |-> ArgsVerdict(e, e.ws, StoredUs(e))]
+  /\ UNCHANGED <<nops, clist>>
 
 EmitEnd ==
   /\ ~Idle /\ ~HasNext(Top)
   /\ stack' = SubSeq(stack, 1, Len(stack) - 1)
   /\ last' = [op |-> "emit_end", a |-> <<Top.s, Top.n, Top.called>>, verdict |-> FirstBroken(Top, AnyTrue(Top.rets))]
-  /\ UNCHANGED <<conn, alive, nextk, beh, nops>>
+  /\ UNCHANGED <<conn, alive, nextk, beh, nops, clist, held, mine>>
 
 Next ==
-  \/ \E s \in S, n \in N, h \in H, w \in 0..NW : Connect(s, n, h, w)
+  \/ \E s \in S, n \in N, h \in H, ws \in WSeqs(alive), u \in UChoices : Connect(s, n, h, ws, u[1], u[2])
   \/ \E s \in S, h \in H : ConnectUnregistered(s, h)
-  \/ \E s \in S, n \in N, h \in H, w \in 0..NW : Disconnect(s, n, h, w)
+  \/ \E s \in S, n \in N, h \in H, ws \in WSeqs(alive), u \in UChoices : Disconnect(s, n, h, ws, u[1], u[2])
   \/ \E s \in S, n \in N, k \in 1..(nextk - 1) : DisconnectByKey(s, n, k)
+  \/ \E c \in CL : Mutate(c)
   \/ \E w \in W : Collect(w)
+  \/ \E s \in S, keep \in BOOLEAN : DropSender(s, keep)
   \/ \E s \in S, n \in N : EmitBegin(s, n)
   \/ EmitStep
   \/ EmitEnd
 Spec == Init /\ [][Next]_vars
 
 (* ---- properties ---- *)
+\* every step keeps its sentence of the contract: finished emits (FirstBroken), the arguments of each call (ArgsVerdict),
+\* disconnects by arguments (DisconnectVerdict), what is freed when the caller lets go of it (FreedVerdict)
 EmitContract == last.verdict = "-"
 \* a handler whose weak argument is dead is not in any list (so it can never be called)
-DeadWeakGone == \A p \in S \X N : \A j \in 1..Len(conn[p]) : conn[p][j].w = 0 \/ conn[p][j].w \in alive
+DeadWeakGone == \A p \in S \X N : \A j \in 1..Len(conn[p]) : WeakAlive(conn[p][j], alive)
 KeysUnique == \A p, q \in S \X N : \A i \in 1..Len(conn[p]), j \in 1..Len(conn[q]) : conn[p][i].k = conn[q][j].k => (p = q /\ i = j)
+\* only keys handed out for the sender now in the slot are connected to it
+NoStaleKeys == \A s \in S : ConnKeys(s) \subseteq mine[s]
 \* every emit terminates: the cursor is bounded by the list it walks (MaxConn) ...
 Terminates == \A j \in 1..Len(stack) : stack[j].i <= MaxConn + 2
 =============================================================================
